@@ -58,6 +58,8 @@ class Check(object):
         self.sample_keys = set()
         self.violations = []     # (key, replay path)
         self.known_hits = {}     # finding key -> count
+        self.drifts = {}         # implementation-shaped model clauses the code no longer follows (not violations)
+        self.drift_notes = []
         self.viol_counts = {}
         self.assumptions = []
         self.rules = []
@@ -187,6 +189,14 @@ class Check(object):
         self.violations.append((key, path))
         return 'violation'
 
+    def drift(self, key, what):
+        """The code no longer follows the *implementation-shaped* part of a model (the order of probes, the commands written, the pieces of a loop) while no
+        clause of the property has been seen to fail.  That is not a violation: the property may well hold for another algorithm.  It is reported (MODEL-DRIFT line,
+        evidence) because the model-level results of that module then say nothing about the code any more; the decision rests on the semantic checks alone."""
+        self.drifts[key] = self.drifts.get(key, 0) + 1
+        if self.drifts[key] == 1:
+            self.drift_notes.append('%s: %s' % (key, what[:600]))
+
     # ------------------------------------------------------------------ finish
     def finish(self):
         wall = time.time() - self.t0
@@ -202,6 +212,7 @@ class Check(object):
             'action_coverage': {k: v[1] for k, v in sorted(self.coverage.items())},
             'parts': self.parts,
             'known_findings_hit': self.known_hits,
+            'model_drift': self.drifts,
             'machinery_errors': self.machinery_errors[:5],
         }
         ev = {'property_id': self.pid, 'tier': self.tier, 'seed': self.seed, 'level': self.level,
@@ -214,6 +225,8 @@ class Check(object):
         for key, n in sorted(self.known_hits.items()):
             e = self._open_finding(key)
             print('KNOWN-FINDING: property=%s %s [%s; %d cases this run]' % (self.pid, e.get('what', key), key, n))
+        for note in self.drift_notes[:6]:
+            print('MODEL-DRIFT: property=%s %s [%d cases]' % (self.pid, note.replace('\n', ' '), self.drifts[note.split(':', 1)[0]]))
         if self.machinery_errors:
             for m in self.machinery_errors[:5]:
                 print('MACHINERY-FAILURE property=%s %s' % (self.pid, m[:2000]))
